@@ -43,6 +43,8 @@ type ChaosCfg struct {
 type Chaos struct {
 	// lastStake: amount of the most recent edit-stake request generated per node key
 	lastStake map[int]int64
+	// recentUnstakes: node keys of the last three begin-unstake requests generated
+	recentUnstakes []int
 	B      *Builder
 	R      *rand.Rand
 	Cfg    ChaosCfg
@@ -260,6 +262,10 @@ func (c *Chaos) genTx() {
 			return
 		}
 		k := c.pick(c.nodeKeys)
+		if len(c.recentUnstakes) > 0 && r.Intn(3) == 0 {
+			// once more for a node whose begin-unstake was requested a few blocks ago (it is waiting, or already unstaking)
+			k = c.recentUnstakes[r.Intn(len(c.recentUnstakes))]
+		}
 		signer := k
 		if o, ok := c.outputOf[k]; ok && r.Intn(2) == 0 {
 			signer = o
@@ -268,6 +274,10 @@ func (c *Chaos) genTx() {
 			signer = c.pick(c.acctKeys) // unauthorized
 		}
 		c.add("node_unstake", signer, MsgNodeUnstake(Addr(k), Addr(signer)), TxMeta{Target: AddrHex(k)})
+		c.recentUnstakes = append(c.recentUnstakes, k)
+		if len(c.recentUnstakes) > 3 {
+			c.recentUnstakes = c.recentUnstakes[1:]
+		}
 	case w < 62: // unjail
 		k := c.pick(c.nodeKeys)
 		signer := k
